@@ -67,6 +67,7 @@ func smallParams(gs app.GenesisState, a *app.JackalApp) {
 	a.AppCodec().MustUnmarshalJSON(gs["storage"], &sg)
 	sg.Params.ProofWindow, sg.Params.CheckWindow, sg.Params.ChunkSize = 3, 4, 2
 	sg.Params.AttestFormSize, sg.Params.AttestMinToPass = 2, 2
+	sg.Params.MissesToBurn = 1
 	sg.Params.CollateralPrice = 1000
 	gs["storage"] = a.AppCodec().MustMarshalJSON(&sg)
 	var og otypes.GenesisState
@@ -177,6 +178,8 @@ func (f *chainFam) Reset() M {
 			w = append(w, &stypes.MsgBuyStorage{Creator: who.S(), ForAddress: who.S(), DurationDays: 30, Bytes: sz, PaymentDenom: "ujkl"})
 			w = append(w, &stypes.MsgPostFile{Creator: who.S(), Merkle: f.files[i%len(f.files)].root, FileSize: sz, MaxProofs: 1, Note: "{}"})
 		}
+		// a tiny file with an enormous replication count (the product still fits the maximal plan)
+		w = append(w, &stypes.MsgPostFile{Creator: a.S(), Merkle: f.files[2].root, FileSize: 1, MaxProofs: []int64{1 << 45, 1 << 55}[f.rng.Intn(2)], Note: "{}"})
 		for i, p := range []string{"p1", "p2", "p3", "p4"} {
 			w = append(w, &stypes.MsgInitProvider{Creator: c.Acct(p).S(), Ip: domURL(p, doms[i]), Keybase: "kb", TotalSpace: 1_000_000})
 		}
@@ -299,7 +302,11 @@ func (f *chainFam) flow() sdk.Msg {
 	coin := func() sdk.Coin {
 		return sdk.NewInt64Coin(pick("ujkl", "ujkl", "uusd"), []int64{1, 55, 1000, 12345, 400_000}[r.Intn(5)])
 	}
-	switch r.Intn(13) {
+	switch r.Intn(14) {
+	case 13: // a block list with several entries, by address and by name
+		ents := []string{who("a", "b", "c"), who("p1", "p2"), "alpha.jkl", who("p3", "p4", "c"), "beta.jkl"}
+		r.Shuffle(len(ents), func(i, j int) { ents[i], ents[j] = ents[j], ents[i] })
+		return &ntypes.MsgBlockSenders{Creator: who("a", "b", "c"), ToBlock: ents[:2+r.Intn(3)]}
 	case 12:
 		return &otypes.MsgUpdateFeed{Creator: f.c.Acct("a").S(), Name: "jklprice", Data: fmt.Sprintf(`{"price":"%s","24h_change":"0"}`, pick("0.25", "0.5", "0.125", "1.0"))}
 	case 0, 1:
